@@ -225,6 +225,18 @@ func matrixCase(c *fw.Ctx, idx int) {
 				if err := cfg.LoadJSON(b); err != nil {
 					c.Inconclusive("crdt LoadJSON: " + err.Error())
 				}
+				// ... followed by the environment step, as the configuration manager does for every
+				// file it loads (no variable is set), and every other time by a save and a reload
+				if err := cfg.ApplyEnvVars(); err != nil {
+					c.Inconclusive("crdt ApplyEnvVars: " + err.Error())
+				}
+				if idx%2 == 1 {
+					if saved, err := cfg.ToJSON(); err == nil {
+						if err := cfg.LoadJSON(saved); err != nil {
+							c.Inconclusive("crdt reload: " + err.Error())
+						}
+					}
+				}
 				c.Cover("config-via-json/" + kind + "/" + jsonShape)
 				return
 			}
